@@ -1,5 +1,7 @@
 """C02 - the live MPD and the segment server agree on what is available.
 (Shares driver and trace specification with C05; each check reports only its own clauses.)"""
+import re
+
 import vlib
 from vlib import Check, MachineryError
 
@@ -8,6 +10,20 @@ RULE = ("one mpd event per (scenario, instant) + fetch events for segments deriv
         "declared set); scenario = (asset, AdaptationSet kind video/text/image, MPD type, startNumber, start time, tsbd, ato); "
         "instants = every availability breakpoint and window edge +-1 ms over the first loops, at wrap 2 and 1000 and in the "
         "year-2025 range, plus seeded instants in between; distinct = distinct scenarios")
+
+
+_S_RE = re.compile(r'"S":\[(\[.*?\])\],')
+_R_RE = re.compile(r',(\d+)\]')
+
+
+def _cost(line):
+    """Estimated cost of validating one event: an MPD event costs as much as its expanded SegmentTimeline is long."""
+    if '"ev":"mpd"' not in line:
+        return 1
+    m = _S_RE.search(line)
+    if not m:
+        return 2
+    return 2 + sum(int(x) + 1 for x in _R_RE.findall(m.group(1)))
 
 
 def run_mpd(prop, tier, dense):
@@ -22,7 +38,7 @@ def run_mpd(prop, tier, dense):
     trace = c.work / "mpd.ndjson"
     args = ["-out", trace, "-work", c.work, "-seed", c.seed] + (["-thorough"] if tier == "thorough" else []) + (["-dense", "-nofetch"] if dense else [])
     st = vlib.run_driver(drive, args, timeout=3000)
-    r, lines = c.validate_trace_parallel("LiveMpd_Trace", trace, chunks=12 if tier == "quick" else 60, workers=14, timeout=3000)
+    r, lines = c.validate_trace_parallel("LiveMpd_Trace", trace, chunks=14 if tier == "quick" else 84, workers=14, timeout=3000, cost=_cost)
     events = vlib.read_ndjson(trace)
     hdr, last_mpd = None, None
     ctx = {}
